@@ -55,6 +55,56 @@ builtinslib._PYTYPE_TO_WRAPPER_TYPE[float] = (
 )
 
 
+# -- formatting stub --------------------------------------------------------
+# gscrib formats numbers into text in two places: the G-code formatter (which
+# goes through the numpy shim) and f-strings of exception messages. The second
+# would realise the symbolic value and turn every error path into an unbounded
+# enumeration of concrete values, so under tracing format(symbolic float) gives
+# a placeholder. Harness diagnostics are formatted with FMT.real = True.
+from crosshair import core as _ch_core
+
+
+class FMT:
+    real = False
+
+
+_orig_format_patch = _ch_core._PATCH_REGISTRATIONS[format]
+
+
+def _stub_format(obj, format_spec=""):
+    if not FMT.real:
+        with NoTracing():
+            is_sym = _has_sym_float(obj)
+        if is_sym:
+            return "<float>"
+    return _orig_format_patch(obj, format_spec)
+
+
+def _has_sym_float(obj, depth=3) -> bool:
+    if isinstance(obj, builtinslib.SymbolicFloat):
+        return True
+    if depth and isinstance(obj, (tuple, list)):
+        return any(_has_sym_float(x, depth - 1) for x in obj)
+    if depth and isinstance(obj, dict):
+        return any(_has_sym_float(x, depth - 1) for x in obj.values())
+    return False
+
+
+_ch_core._PATCH_REGISTRATIONS[format] = _stub_format
+
+_orig_float_repr = builtinslib.SymbolicFloat.__repr__
+
+
+def _stub_float_repr(self):
+    # repr() reached from C code (e.g. the repr of a Point inside an error message)
+    if not FMT.real:
+        return "<float>"
+    return _orig_float_repr(self)
+
+
+builtinslib.SymbolicFloat.__repr__ = _stub_float_repr
+
+
 class _SolverStats:
     calls = 0
     seconds = 0.0
@@ -91,8 +141,19 @@ def make_args(sig: inspect.Signature):
     for name, param in sig.parameters.items():
         smt_name = name + space.uniq()
         ann = param.annotation
+        # Symbolics are created directly (not through CrossHair's
+        # make_concrete_or_symbolic wrapper, which spends iterations on
+        # prematurely realised copies of the same argument).
         if ann is Finite:
             value = builtinslib.RealBasedSymbolicFloat(smt_name, float)
+        elif ann is float:
+            value = builtinslib.make_float(smt_name, float)
+        elif ann is bool:
+            value = builtinslib.SymbolicBool(smt_name, bool)
+        elif ann is int:
+            value = builtinslib.SymbolicBoundedInt(smt_name, int)
+        elif ann is str:
+            value = builtinslib.LazyIntSymbolicStr(smt_name, str)
         else:
             value = proxy_for_type(ann, smt_name, allow_subtypes=False)
         ba.arguments[name] = value
@@ -200,17 +261,23 @@ def explore(
                             conc,
                         )
                     elif ret is not None:
-                        with ResumedTracing():
-                            conc = deep_realize(dict(pre_args.arguments))
-                            kind = str(deep_realize(ret.kind))
-                            detail = str(deep_realize(ret.detail))
-                        if kind in known_kinds:
-                            res.known_hits.setdefault(
-                                kind, {"args": conc, "detail": detail, "count": 0}
-                            )["count"] += 1
+                        kind = str(ret.kind)
+                        if kind in known_kinds and kind in res.known_hits:
+                            res.known_hits[kind]["count"] += 1
                         else:
-                            violation = ("VIOLATION", f"{kind}: {detail}", conc)
-                            res.kind = kind
+                            FMT.real = True
+                            try:
+                                with ResumedTracing():
+                                    d = ret.detail() if callable(ret.detail) else ret.detail
+                                    detail = str(deep_realize(d))
+                                    conc = deep_realize(dict(pre_args.arguments))
+                            finally:
+                                FMT.real = False
+                            if kind in known_kinds:
+                                res.known_hits[kind] = {"args": conc, "detail": detail, "count": 1}
+                            else:
+                                violation = ("VIOLATION", f"{kind}: {detail}", conc)
+                                res.kind = kind
                     res.tags |= take_tags()
                     status = VerificationStatus.CONFIRMED
                 except IgnoreAttempt:
